@@ -34,6 +34,11 @@ func jsType(t *amType, closed bool) map[string]any {
 		m["default"] = t.Default
 	}
 	if t.Nullable {
+		if t.K == "union" {
+			// `a | b | null` as one flat oneOf
+			m["oneOf"] = append(m["oneOf"].([]any), map[string]any{"type": "null"})
+			return m
+		}
 		return map[string]any{"oneOf": []any{m, map[string]any{"type": "null"}}}
 	}
 	return m
